@@ -59,6 +59,24 @@ Section MdiffSpec.
       LStart c1 = LStart c0 - len pre /\ RStart c1 = RStart c0 - len pre /\
       LEnd c1 = LEnd c0 + len post /\ REnd c1 = REnd c0 + len post.
 
+  (* ---- what Unify does to the ranges: every maximal run of chunks each of which starts at or
+     before the end of the one before it becomes one chunk, from the start of the run's first chunk
+     to the end of its last (on both sides); chunks that are at least one line apart stay apart *)
+  Definition span : Type := (Z * Z * Z * Z)%type.    (* LStart, LEnd, RStart, REnd *)
+  Definition span_of (c : chunk T) : span := (LStart c, LEnd c, RStart c, REnd c).
+  Fixpoint merge_spans (ls le rs re : Z) (cs : list (chunk T)) : list span :=
+    match cs with
+    | [] => [(ls, le, rs, re)]
+    | c :: r =>
+      if le <? LStart c then (ls, le, rs, re) :: merge_spans (LStart c) (LEnd c) (RStart c) (REnd c) r
+      else merge_spans ls (LEnd c) rs (REnd c) r
+    end.
+  Definition unified_spans (cs : list (chunk T)) : list span :=
+    match cs with
+    | [] => []
+    | c :: r => merge_spans (LStart c) (LEnd c) (RStart c) (REnd c) r
+    end.
+
   Definition non_emit (e : edit T) : bool := negb (is_emit e).
   (* the edits of the script that change something, in order *)
   Definition changes (es : list (edit T)) : list (edit T) := filter non_emit es.
@@ -108,6 +126,9 @@ Arguments apply_step {T} L st c.
 Arguments apply_chunks {T} L cs.
 Arguments emit_opt {T} x.
 Arguments ctx_of {T} n c0 c1.
+Arguments span_of {T} c.
+Arguments merge_spans {T} ls le rs re cs.
+Arguments unified_spans {T} cs.
 Arguments non_emit {T} e.
 Arguments changes {T} es.
 Arguments list_eqb {T} eqb a b.
